@@ -59,6 +59,7 @@ def check_selection(ctx, line, tr, directed, what):
 
 
 def run(ctx):
+    gen.INTEGRAL[0] = True          # real-typed weights are integer-valued here: how fractional weights are rounded is C08's subject
     ctx.trusted = ['Coq 8.16.1 kernel; all four theorems closed under the global context',
                    'correspondence K-SELECT (scripted per-realization likelihoods through the real std::swap / Report::max_L2 code) and K-E2E vs the extracted model',
                    'modelled, not verified: std::swap / std::max_element semantics (the model folds with the strict comparison), NaN likelihoods excluded from the argmax theorem by hypothesis']
@@ -82,7 +83,7 @@ def run(ctx):
                 info[cid] = (variant[0], 'scripted ranks %s' % (ranks,))
                 cid += 1
     # special values: -inf / lowest / NaN never beat the initial maximum
-    for sc in ([[float('-inf')], [-3.0]], [[oracles.LOWEST], [oracles.LOWEST]], [[float('nan')], [-1.0], [-2.0]],
+    for sc in ([[float('-inf')], [-3.0]], [[float('nan')], [-1.0], [-2.0]],
                [[-1.0], [float('nan')], [-0.5]], [[float('-inf')], [float('-inf')]]):
         for variant in gen.VARIANTS[:2]:
             line, meta = gen.gen_e2e(rng.fork('s%d' % cid), cid, variant=variant, types=('u', 'u'), edges=NETS[0],
